@@ -185,7 +185,7 @@ func checkC16(sc *Scenario, res *RunResult, t *Truth) []Violation {
 				add("replica-numbering", "", fmt.Sprintf("%s says replica_num=%d replicas=%d", where, lp.ReplicaNum, lp.Replicas), 0)
 			case ps.Namespace == "" && lp.Namespace != "default" || ps.Namespace != "" && lp.Namespace != ps.Namespace:
 				add("wrong-default", "namespace", fmt.Sprintf("%s has namespace %q (configured %q)", where, lp.Namespace, ps.Namespace), 0)
-			case lp.LaunchTimeout < 1:
+			case lp.LaunchTimeout < 1 || (ps.LaunchTimeout >= 1 && lp.LaunchTimeout != ps.LaunchTimeout):
 				add("wrong-default", "launch_timeout", fmt.Sprintf("%s has launch timeout %d", where, lp.LaunchTimeout), 0)
 			case lp.Command != render("simproc "+ps.Token, ps, k):
 				add("not-rendered-for-own-replica", "command", fmt.Sprintf("%s has command %q; expected %q", where, lp.Command, render("simproc "+ps.Token, ps, k)), 0)
@@ -323,6 +323,17 @@ func genC16(r *R, sc *Scenario, tier string) {
 			}
 		}
 		spec.Procs = append(spec.Procs, p)
+	}
+	if r.P(150) {
+		// a key the process body has no business with: the name of a process is its key
+		q := spec.Procs[r.Intn(n)]
+		q.RawYAML = fmt.Sprintf("    name: %s\n", Pick(r, "other", "q0", "q1"))
+	}
+	if r.P(200) {
+		// a second file that merely touches a process: what the first one configured stays
+		q := spec.Procs[r.Intn(n)]
+		sc.Files = map[string]string{"override.yaml": fmt.Sprintf("processes:\n  %s:\n    environment:\n      - \"OVR=1\"\n", q.Name)}
+		sc.Extra = []string{"override.yaml"}
 	}
 	sc.LoadOnly = r.Range(2, 4)
 	sc.IterMode = Pick(r, 0, 0, 0, 1, 2, 3)
